@@ -1,10 +1,389 @@
-# Verus units: extraction + weaving + verification (filled in below)
-def run_unit(unit, prop):
-    raise NotImplementedError
+# Verus units: overlay parsing, extraction from /repo's working tree, weaving, running `verus`, mapping every
+# diagnostic back to (function, clause tag) and hence to properties.
+import json, os, re, time
+import vlib, rsx
+
+OVERLAY_DIR = os.path.join(vlib.VERIF, "contracts", "verus")
+TAG = re.compile(r"\[((?:C\d\d(?:,\s*)?)+):([^\]]+)\]")
+
+VERIF_FAIL = re.compile(
+    r"postcondition not satisfied|precondition not satisfied|assertion failed|possible arithmetic underflow/overflow|possible division by zero|"
+    r"invariant not satisfied|decreases not satisfied|possible bit shift underflow/overflow|could not prove termination|"
+    r"unable to prove assertion|constructed value may fail to meet its declared type invariant|cannot show invariant holds|"
+    r"loop invariant|not satisfied|failed")
+RLIMIT = re.compile(r"[Rr]esource limit|rlimit|timed out|time limit", re.I)
 
 
+class Unit:
+    def __init__(self, name):
+        self.name = name
+        self.lines = []  # (text, origin)
+        self.notes = []  # extraction notes
+        self.items = []  # (path, sha)
+        self.default_props = []
+        self.safety_prop = None
+
+
+def parse_bt(s):
+    """`a` => `b` with optional leading count"""
+    m = re.match(r"\s*(\d+)?\s*`(.*?)`\s*=>\s*`(.*?)`\s*$", s)
+    if not m:
+        raise rsx.RsxError("bad subst directive: " + s)
+    return (m.group(2).replace("\\n", "\n"), m.group(3).replace("\\n", "\n"), int(m.group(1) or 1))
+
+
+def build_unit(name):
+    """returns Unit with generated text; raises rsx.RsxError (=> undecided)"""
+    opath = os.path.join(OVERLAY_DIR, name + ".vrs")
+    raw = open(opath).read().split("\n")
+    u = Unit(name)
+    srcs = {}
+
+    def get_src(rel):
+        if rel not in srcs:
+            p = os.path.join(vlib.REPO, rel) if not rel.startswith("/") else rel
+            srcs[rel] = rsx.Src(open(p).read(), rel)
+        return srcs[rel]
+
+    def emit_text(text, origin):
+        # origin: (kind, file, first_line)
+        ls = text.split("\n")
+        if ls and ls[-1] == "":
+            ls = ls[:-1]
+        for k, l in enumerate(ls):
+            u.lines.append((l, (origin[0], origin[1], origin[2] + k if origin[2] else 0)))
+
+    def emit_woven(w, path, rel):
+        for p in w.pieces:
+            # pieces may not end at line boundaries: glue
+            if u.lines and getattr(u, "_open", False):
+                last, lo = u.lines.pop()
+                first_nl = p.text.find("\n")
+                if first_nl < 0:
+                    u.lines.append((last + p.text, lo))
+                    continue
+                u.lines.append((last + p.text[:first_nl], lo))
+                rest = p.text[first_nl + 1:]
+                u._open = False
+                origin = (p.origin[0], p.origin[1], p.origin[2] + 1 if p.origin[2] else 0)
+                if rest:
+                    _emit_piece(rest, origin)
+                continue
+            _emit_piece(p.text, p.origin)
+        if getattr(u, "_open", False):
+            u._open = False
+        u.items.append(("%s :: %s" % (rel, " / ".join(path)), vlib.sha(w.hash_src)))
+        for n in w.notes:
+            u.notes.append("%s :: %s: %s" % (rel, path[-1], n))
+
+    def _emit_piece(text, origin):
+        ls = text.split("\n")
+        u._open = not text.endswith("\n")
+        if text.endswith("\n"):
+            ls = ls[:-1]
+        for k, l in enumerate(ls):
+            u.lines.append((l, (origin[0], origin[1], origin[2] + k if origin[2] else 0)))
+
+    i = 0
+    wrap = None
+    while i < len(raw):
+        line = raw[i]
+        m = re.match(r"\s*//@(\w+)\s*(.*)$", line)
+        if not m:
+            u.lines.append((line, ("overlay", name + ".vrs", i + 1)))
+            i += 1
+            continue
+        d, arg = m.group(1), m.group(2).strip()
+        if d == "props":
+            u.default_props = arg.split()
+            i += 1
+        elif d == "safety":
+            u.safety_prop = arg
+            i += 1
+        elif d == "wrap":
+            wrap = arg
+            i += 1
+        elif d in ("fn", "item"):
+            rel, pth = [x.strip() for x in arg.split("::", 1)]
+            path = [x.strip() for x in pth.split("/")]
+            spec = {"overlay_file": name + ".vrs", "loops": {}, "before": [], "after": [], "rules": [], "subst": [], "sig_subst": []}
+            i += 1
+            cur = None
+            buf = []
+            cur_line = 0
+
+            def flush():
+                nonlocal cur, buf
+                if cur is None:
+                    return
+                text = "\n".join(buf) + "\n"
+                if cur[0] == "contract":
+                    spec["contract"] = (text, cur_line)
+                elif cur[0] == "loop":
+                    spec["loops"][cur[1]] = (text, cur_line)
+                elif cur[0] in ("before", "after"):
+                    spec[cur[0]].append((cur[1], text, cur[2], cur_line))
+                cur, buf = None, []
+
+            while i < len(raw):
+                l2 = raw[i]
+                m2 = re.match(r"\s*//@(\w+)\s*(.*)$", l2)
+                if not m2:
+                    buf.append(l2)
+                    i += 1
+                    continue
+                d2, a2 = m2.group(1), m2.group(2).strip()
+                if d2 == "end":
+                    flush()
+                    i += 1
+                    break
+                flush()
+                if d2 == "ret":
+                    spec["ret"] = a2
+                elif d2 == "rules":
+                    spec["rules"] = a2.split()
+                elif d2 == "rename":
+                    spec["rename"] = a2
+                elif d2 == "external_body":
+                    spec["external_body"] = True
+                elif d2 == "keep_pub":
+                    spec["keep_pub"] = True
+                elif d2 == "subst":
+                    spec["subst"].append(parse_bt(a2))
+                elif d2 == "sig_subst":
+                    spec["sig_subst"].append(parse_bt(a2))
+                elif d2 == "loop_count":
+                    spec["loop_count"] = int(a2)
+                elif d2 == "contract":
+                    cur, cur_line = ("contract",), i + 2
+                elif d2 == "loop":
+                    cur, cur_line = ("loop", int(a2)), i + 2
+                elif d2 in ("before", "after"):
+                    mm = re.match(r"`(.*)`\s*(?:#(\d+))?$", a2)
+                    if not mm:
+                        raise rsx.RsxError("%s.vrs:%d bad anchor directive" % (name, i + 1))
+                    cur, cur_line = (d2, mm.group(1), int(mm.group(2)) if mm.group(2) else None), i + 2
+                else:
+                    raise rsx.RsxError("%s.vrs:%d unknown directive //@%s" % (name, i + 1, d2))
+                i += 1
+            src = get_src(rel)
+            if wrap:
+                u.lines.append((wrap + " {", ("gen", "wrap", 0)))
+            if d == "fn":
+                if not spec["loops"] and "loop_count" not in spec:
+                    spec["loops"] = {} if True else None
+                w = rsx.weave_fn(src, path, rel, spec)
+            else:
+                w = rsx.extract_verbatim(src, path, rel, keep_pub=spec.get("keep_pub", False), subst=spec["subst"])
+            emit_woven(w, path, rel)
+            if wrap:
+                u.lines.append(("}", ("gen", "wrap", 0)))
+                wrap = None
+        else:
+            raise rsx.RsxError("%s.vrs:%d unknown directive //@%s" % (name, i + 1, d))
+    return u
+
+
+def fn_extents(text):
+    """[(name, first_line, last_line, is_proof)] for every fn with a body in the generated file"""
+    s = rsx.Src(text, "<generated>")
+    out = []
+    toks = s.toks
+    for k, (kind, a, b) in enumerate(toks):
+        if kind == "id" and text[a:b] == "fn":
+            j = s.next_sig(k, len(toks))
+            if j >= len(toks) or toks[j][0] != "id":
+                continue
+            name = s.t(j)
+            # spec fns are not obligations
+            back = text[max(0, a - 40):a]
+            is_spec = bool(re.search(r"\bspec\s+(\(checked\)\s+)?$", back)) or bool(re.search(r"\bspec\s*$", back))
+            e = j
+            end = None
+            while e < len(toks):
+                if toks[e][0] == "p":
+                    ch = text[toks[e][1]]
+                    if ch == "{":
+                        end = s.match[e]
+                        break
+                    if ch == ";":
+                        break
+                    if ch in "([":
+                        e = s.match[e]
+                e += 1
+            if end is None or is_spec:
+                continue
+            is_proof = bool(re.search(r"\bproof\s+$", back))
+            out.append((name, s.line_of(a), s.line_of(toks[end][1]), is_proof))
+    return out
+
+
+def run_unit(name, prop):
+    t0 = time.time()
+    res = {"cmd": "verus <generated %s.rs> --output-json --time --multiple-errors 50 --error-format=json" % name, "seconds": 0.0, "trusted": [], "obligations": []}
+
+    def undecided(reason):
+        res["obligations"].append({"id": "verus.%s" % name, "engine": "verus/z3", "what": "unit " + name, "status": "undecided", "reason": reason, "seconds": 0})
+        return res
+
+    try:
+        u = build_unit(name)
+    except rsx.RsxError as e:
+        return undecided("extraction/weaving refused: %s" % e)
+    except FileNotFoundError as e:
+        return undecided("missing file: %s" % e)
+    gdir = os.path.join(vlib.WORK, "verus")
+    os.makedirs(gdir, exist_ok=True)
+    gpath = os.path.join(gdir, name + ".rs")
+    text = "\n".join(l for l, _ in u.lines) + "\n"
+    open(gpath, "w").write(text)
+    cmd = ["verus", gpath, "--output-json", "--time", "--multiple-errors", "50", "--error-format=json", "--rlimit", "60"]
+    import subprocess
+    try:
+        p = subprocess.run(cmd, stdout=subprocess.PIPE, stderr=subprocess.PIPE, text=True, timeout=900, cwd=gdir, env=vlib.ENV)
+    except subprocess.TimeoutExpired:
+        return undecided("verus timed out after 900 s")
+    res["seconds"] = time.time() - t0
+    open(gpath + ".stderr", "w").write(p.stderr)
+    open(gpath + ".stdout", "w").write(p.stdout)
+    try:
+        out = json.loads(p.stdout)
+    except Exception:
+        return undecided("verus produced no JSON result (front-end crash?): " + p.stderr[-300:])
+    vr = out.get("verification-results", {})
+    diags = []
+    for l in p.stderr.splitlines():
+        if l.startswith("{"):
+            try:
+                d = json.loads(l)
+            except Exception:
+                continue
+            if d.get("level") == "error" and not d.get("message", "").startswith("aborting due to"):
+                diags.append(d)
+    # front-end errors => undecided
+    fe = [d for d in diags if d.get("code") or not VERIF_FAIL.search(d.get("message", "")) and not RLIMIT.search(d.get("message", ""))]
+    if vr.get("encountered-vir-error") or fe or (vr.get("verified", 0) + vr.get("errors", 0) == 0):
+        msg = (fe[0].get("rendered") or fe[0].get("message"))[:600] if fe else "no function was verified"
+        return undecided("verus front end rejected the generated unit (tool limit or extraction drift, not a property verdict): " + msg)
+
+    exts = fn_extents(text)
+    lines = text.split("\n")
+
+    def tags_in(a, b):
+        found = []
+        for ln in range(a, b + 1):
+            for m in TAG.finditer(lines[ln - 1]):
+                for pp in re.split(r",\s*", m.group(1)):
+                    found.append((pp, m.group(2), ln))
+        return found
+
+    # smt seconds per function (for evidence)
+    ftime = {}
+    try:
+        for mod in out["times-ms"]["smt"]["smt-run-module-times"]:
+            for f in mod.get("function-breakdown", []):
+                ftime[f["function"].split("::")[-1]] = ftime.get(f["function"].split("::")[-1], 0) + f.get("time-micros", 0) / 1e6
+    except Exception:
+        pass
+
+    # attribute diagnostics
+    per_fn = {}  # index in exts -> list of (props, label, message, line, origin)
+    stray = []
+    for d in diags:
+        spans = d.get("spans", [])
+        prim = [s for s in spans if s.get("is_primary")] or spans
+        if not prim:
+            stray.append(d)
+            continue
+        pl = prim[0]["line_start"]
+        owner = None
+        for idx, (fname, a, b, isp) in enumerate(exts):
+            if a <= pl <= b:
+                owner = idx  # innermost = last match with a<=pl<=b; nested fns rare
+        if owner is None:
+            stray.append(d)
+            continue
+        # tags: on any span line (primary or secondary, e.g. the callee's requires clause)
+        tg = []
+        for s in spans:
+            for ln in range(s["line_start"], s["line_end"] + 1):
+                for m in TAG.finditer(lines[ln - 1]):
+                    for pp in re.split(r",\s*", m.group(1)):
+                        tg.append((pp, m.group(2)))
+        origin = u.lines[pl - 1][1] if pl - 1 < len(u.lines) else ("?", "?", 0)
+        per_fn.setdefault(owner, []).append({"tags": tg, "message": d["message"], "line": pl, "origin": origin, "text": lines[pl - 1].strip()[:160],
+                                             "rlimit": bool(RLIMIT.search(d["message"])), "rendered": (d.get("rendered") or "")[:1500]})
+    if stray:
+        return undecided("diagnostic outside any function: " + stray[0].get("message", ""))
+
+    # canaries
+    for idx, (fname, a, b, isp) in enumerate(exts):
+        if fname.startswith("canary_") and idx not in per_fn:
+            return undecided("vacuity canary `%s` verified: a precondition family is contradictory" % fname)
+
+    # obligations for this property
+    for idx, (fname, a, b, isp) in enumerate(exts):
+        if fname.startswith("canary_") or fname == "main":
+            continue
+        ftags = tags_in(a, b)
+        props_of_fn = set(pp for pp, _, _ in ftags)
+        is_repo_fn = any(u.lines[ln - 1][1][0] == "repo" for ln in range(a, min(b, len(u.lines)) + 1))
+        if is_repo_fn:
+            props_of_fn.update(u.default_props)
+            if u.safety_prop:
+                props_of_fn.add(u.safety_prop)
+        errs = per_fn.get(idx, [])
+        # which errors concern `prop`?
+        mine = []
+        for e in errs:
+            eprops = set(pp for pp, _ in e["tags"])
+            if not eprops:
+                # untagged failure inside repo code: a safety obligation (overflow, bounds, division, callee precondition)
+                eprops = {u.safety_prop} if u.safety_prop else set(u.default_props)
+            if prop in eprops:
+                mine.append(e)
+        if prop not in props_of_fn and not mine:
+            continue
+        oid = "verus.%s.%s" % (name, fname)
+        ob = {"id": oid, "engine": "verus/z3", "seconds": round(ftime.get(fname, 0.0), 3),
+              "what": "%s %s: %s" % ("lemma" if isp else "fn", fname, "; ".join(sorted(set(lbl for pp, lbl, _ in ftags if pp == prop))) or "safety (no overflow / bounds / division / callee preconditions) and termination"),
+              "unit": name}
+        if not mine:
+            if errs and all(e["rlimit"] for e in errs):
+                ob["status"], ob["reason"] = "undecided", "resource limit in " + fname
+            else:
+                ob["status"] = "discharged"
+        elif all(e["rlimit"] for e in mine):
+            ob["status"], ob["reason"] = "undecided", "resource limit: " + mine[0]["message"]
+        else:
+            ob["status"] = "failed"
+            fc = []
+            for e in mine:
+                lbls = [lbl for pp, lbl in e["tags"] if pp == prop]
+                where = "%s:%s" % (e["origin"][1], e["origin"][2]) if e["origin"][0] == "repo" else "contract %s:%s" % (e["origin"][1], e["origin"][2])
+                fc.append("%s%s @ %s `%s`" % (e["message"], (" [" + ",".join(lbls) + "]") if lbls else "", where, e["text"][:100]))
+            ob["failed_checks"] = fc
+            ob["verifier_output"] = "\n".join(e["rendered"] for e in mine)[:6000]
+            ob["witness"] = None
+        res["obligations"].append(ob)
+
+    # trusted base scan of the generated file
+    scan = vlib.scan_trusted([gpath])
+    res["trusted"] = ["verus unit %s: %s" % (name, s.split(": ", 1)[1]) for s in scan]
+    for n in u.notes:
+        res["trusted"].append("extraction %s: %s" % (name, n))
+    res["items"] = u.items
+    return res
+
+
+# witness search for failed Verus obligations: registered per unit in registry.VERUS_WITNESS (native probes through
+# the public API or a sibling Kani harness); default: none => the VIOLATION line says no-failing-input-found.
 def witness_search(ob, seed):
-    return {"reproduced": False, "detail": "no witness search registered"}
+    import registry
+    fn = registry.VERUS_WITNESS.get(ob.get("unit"))
+    if fn is None:
+        return {"reproduced": False, "detail": "no native witness search registered for unit %s; the failed obligation and the verifier output are in this file" % ob.get("unit")}
+    return fn(ob, seed)
 
 
 def rerun_native(nr):
